@@ -95,8 +95,37 @@ func c18R6(c *Ctx) {
 				}
 				return
 			}
-			// an error return (last result non-nil, first a constant) is fine
+			// an error return is fine when the error is the library function's own error (possibly wrapped): a handler that
+			// rejects arguments the library function accepts (a length limit, say) is partial where its definition is not
 			if len(res) > 1 && !isNilConst(res[len(res)-1]) {
+				fromLib := derivesFrom(res[len(res)-1], func(v ssa.Value) bool {
+					ex, ok := v.(*ssa.Extract)
+					if !ok {
+						return false
+					}
+					call, ok := ex.Tuple.(*ssa.Call)
+					return ok && calleeName(call.Common()) == d.lib
+				})
+				if !fromLib {
+					// fmt.Errorf("… %w", err) and friends: any argument of the error constructor derives from the library's error
+					if call, ok := res[len(res)-1].(*ssa.Call); ok {
+						for _, a := range call.Call.Args {
+							if derivesFrom(a, func(v ssa.Value) bool {
+								ex, ok := v.(*ssa.Extract)
+								if !ok {
+									return false
+								}
+								c2, ok := ex.Tuple.(*ssa.Call)
+								return ok && calleeName(c2.Common()) == d.lib
+							}) {
+								fromLib = true
+							}
+						}
+					}
+				}
+				if !fromLib {
+					bad = append(bad, c.instrPos(ret)+": the handler returns an error of its own — it refuses arguments that "+d.lib+" accepts")
+				}
 				return
 			}
 			// emptiness fast path
